@@ -333,6 +333,15 @@ def rules(ck, P):
     boxalg.transform_rule(ck, P, "R-BOX-D4")
     _from_geo_rule(ck, P)
     _coord_from_geo_rule(ck, P)
+    # the selection the CLI builds is in OUTPUT coordinates (new_from_reader transforms the source pyramid, then intersects with the
+    # selection): the tools narrow it by zoom limits, the geographic box and the border only - a flip / swap of the selection itself
+    # selects the pre-image of the requested box
+    from . import c03 as _c03
+    _c03.pyramid_writers_rule(ck, P, "R-SELECT", {
+        "versatiles/src/tools/convert.rs": {"set_zoom_min", "set_zoom_max", "intersect_geo_bbox", "add_border"},
+        "versatiles/src/tools/serve.rs": set(),
+    }, what_="narrowing of the selection", floor=4,
+        consequence="the converter expects the selection in output coordinates, so tiles inside the requested box go missing and tiles outside it appear")
     comp.levels_rule(ck, P, "R-SELECT", ("set_zoom_min", "set_zoom_max", "intersect_geo_bbox", "intersect", "add_border"))
     conv = [a for q, a in P.adts.items() if q.endswith("::TilesConvertReader")]
     if not ck.anchor("R-D4", "TilesConvertReader", conv, 1):
